@@ -543,6 +543,16 @@ def _search(fn):
 CHECKS.update({"C03": _search("check_c03"), "C04": _search("check_c04"), "C06": _search("check_c06"), "C17": _search("check_c17"), "C19": _search("check_c19")})
 
 
+def _uci(fn):
+    def run(pid, tier, seed):
+        import ucichecks
+        getattr(ucichecks, fn)(pid, tier, seed)
+    return run
+
+
+CHECKS.update({"C07": _uci("check_uci"), "C18": _uci("check_uci"), "C14": _uci("check_c14")})
+
+
 def main():
     ap = argparse.ArgumentParser()
     ap.add_argument("pid")
